@@ -2,7 +2,7 @@
 # tools/eval_seed.sh <prop> <k> : evaluates /tmp/seed-<prop>/out/<k> WITHOUT touching /repo: the scratch worktree is moved to /repo's HEAD,
 # the patch is applied there (3-way) and the property's quick check runs with VERIF_REPO pointing at it; then the seed is confirmed
 # (tools/confirm_seed.sh) and stored under seeded/<prop>-<k>/ with the verdict.
-P=$1; K=$2; WT=/tmp/seed-$P; D=$WT/out/$K
+P=$1; K=$2; WT=${SEED_WT:-/tmp/seed-$P}; D=$WT/out/$K; SK=$((K + ${SEED_OFFSET:-0}))   # stored as seeded/<prop>-<K+offset>
 cd "$WT" || exit 2
 git checkout -q -- . ; git checkout -q --detach "$(git -C /repo rev-parse HEAD)" || exit 2
 if ! git apply --3way "$D/patch.diff" 2>/dev/null; then echo "$P-$K: patch does not apply to /repo HEAD"; git reset -q --hard HEAD; exit 1; fi
@@ -16,4 +16,4 @@ CONF=$(/verif/tools/confirm_seed.sh "$WT" "$D" patch_rebased.diff | tr '\n' ' ')
 echo "$P-$K confirm: $CONF"
 case "$OUT" in *VIOLATION*) CAUGHT=yes;; *) CAUGHT=no;; esac
 case "$CONF" in *"patch_applies=yes compiles=yes tests=176/176 failed=0 demo_with_patch_exit=0"*) echo "$P-$K: demo does not fail with the patch — NOT stored"; exit 1;; esac
-case "$CONF" in *"tests=176/176 failed=0"*"demo_without_patch_exit=0"*) /verif/tools/store_seed.py $P $K "$D" patch_rebased.diff $CAUGHT "$OUT";; *) echo "$P-$K: confirmation failed — NOT stored";; esac
+case "$CONF" in *"tests=176/176 failed=0"*"demo_without_patch_exit=0"*) /verif/tools/store_seed.py $P $SK "$D" patch_rebased.diff $CAUGHT "$OUT";; *) echo "$P-$K: confirmation failed — NOT stored";; esac
